@@ -8,7 +8,7 @@ from ..astx import C, N, attr, call, lam
 from ..core import CaseTimeout, case_timeout
 from ..refeval import evaluate_raw
 
-N_CASES = {"quick": 350, "thorough": 375000}
+N_CASES = {"quick": 1000, "thorough": 375000}
 TIME_BUDGET = {"quick": 60, "thorough": 270}
 META = {
     "rule": "generated expressions with len/Count/Sum/Max/Min as: calls with 0,1,2 positional arguments, with keywords, "
